@@ -16,7 +16,12 @@ mkdir -p $ROOT
 # while the sweep runs do not leak into it
 SRC=$ROOT/_src_$$
 rm -rf $SRC; mkdir -p $SRC
-(cd /verif && tar -c --exclude=sim/target --exclude=replays --exclude=seeded --exclude=.git .) | tar -x -C $SRC
+if [ -n "${SWEEP_REV:-}" ]; then
+  # the machinery as committed at $SWEEP_REV (for "blind" sweeps of changes that arrived then)
+  git -C /verif archive $SWEEP_REV -- . ':!seeded' | tar -x -C $SRC
+else
+  (cd /verif && tar -c --exclude=sim/target --exclude=replays --exclude=seeded --exclude=.git .) | tar -x -C $SRC
+fi
 one() {
   s=$1
   d=$ROOT/$s
